@@ -55,6 +55,7 @@ def parseVal (s : String) : Option (Option (Val F64)) :=   -- none = bad token; 
   else match s.toList with
     | 's' :: ':' :: rest => (unhex (String.ofList rest)).map (fun t => some (.str t))
     | 'i' :: ':' :: rest => (String.ofList rest).toInt?.map (fun n => some (.num (F64.of (Float.ofInt n))))
+    | 'u' :: ':' :: rest => (String.ofList rest).toNat?.map (fun n => some (.num (F64.of (Float.ofNat n))))   -- a Go uint64 (up to 2^64-1)
     | _ => (parseF s).map (fun x => some (.num x))
 
 def showVal : Val F64 → String
